@@ -363,6 +363,19 @@ impl<'a> M<'a> {
                 self.spawn();
                 self.resolve(Some(t));
             }
+            Ctl::Op(_, Op::RawContinue) => {
+                // sent by hand it is what the timer sends: stop whatever runs, start afresh; nothing stays pending
+                self.restart_ticket = None;
+                if let Some(k) = self.running_child() {
+                    if !self.kill_reap(k) {
+                        self.resolve(tk);
+                        return;
+                    }
+                }
+                self.reset();
+                self.spawn();
+                self.resolve(tk);
+            }
             Ctl::Op(_, Op::Signal { sig }) => {
                 if let Some(k) = self.running_child() {
                     self.signal(k, sig);
@@ -585,7 +598,7 @@ pub fn observed_trace(scn: &E1Scn, out: &RunOut) -> Vec<(u64, Obs)> {
 // ------------------------------------------------------------------------------------------
 // scenario generation: bounded-exhaustive + random, single sender, tie-avoiding durations
 
-/// alphabet for the exhaustive part (18 letters)
+/// alphabet for the exhaustive part (19 letters)
 fn letter(k: u64, sig: &mut e1::SigAlloc) -> Op {
     match k {
         0 => Op::Start,
@@ -606,10 +619,12 @@ fn letter(k: u64, sig: &mut e1::SigAlloc) -> Op {
         15 => Op::UnsetHook,
         16 => Op::SetErr { async_ms: None },
         // signal(ForceStop): kills without the job noticing until the process end is observed
-        _ => Op::Signal { sig: 9 },
+        17 => Op::Signal { sig: 9 },
+        // the timer's own control, sent by hand
+        _ => Op::RawContinue,
     }
 }
-pub const ALPHA: u64 = 18;
+pub const ALPHA: u64 = 19;
 /// child behaviour classes with durations chosen off the grid of send instants and graces
 fn klass(k: u64) -> ChildSpec {
     match k {
@@ -859,7 +874,7 @@ impl Check for C09 {
         !matches!(run_model(scn), ModelResult::Ambiguous(_)) && out.hist.iter().any(|r| matches!(r.ev, Ev::Spawn { .. }))
     }
     fn rule(&self) -> String {
-        "quick: every control sequence of length <= 3 over an 18-letter alphabet x {burst, settled} x 6 child behaviour classes x 6 fault plans (none; first or second spawn fails; first kill, signal or wait on the first process fails), then seeded-random sequences of length 2-30 (thorough: length <= 4 under four schedule seeds, then random); each run under a seeded scheduling policy. distinct = distinct hash of the recorded history; non-trivial = the scenario is tie-free (so it was compared observation by observation with the reference model) and spawned at least one child".into()
+        "quick: every control sequence of length <= 3 over a 19-letter alphabet x {burst, settled} x 6 child behaviour classes x 6 fault plans (none; first or second spawn fails; first kill, signal or wait on the first process fails), then seeded-random sequences of length 2-30 (thorough: length <= 4 under four schedule seeds, then random); each run under a seeded scheduling policy. distinct = distinct hash of the recorded history; non-trivial = the scenario is tie-free (so it was compared observation by observation with the reference model) and spawned at least one child".into()
     }
     fn required_probes(&self, _tier: Tier) -> Vec<&'static str> {
         vec![
